@@ -68,6 +68,42 @@ func c12LangDocs() []*adoc.Doc {
 	e.Declare("p", adoc.URI_U)
 	d.Root.Add(e)
 	docs = append(docs, d.Finish())
+	// every ordered arrangement of {lang, p:lang, xml:lang} subsets on an element
+	// (the XHTML idiom lang="en" xml:lang="en" in either order), below an
+	// ancestor with / without its own xml:lang
+	mkAttr := []func() *adoc.Node{
+		func() *adoc.Node { return adoc.A("lang", "fr") },
+		func() *adoc.Node { return adoc.ANS(adoc.URI_U, "p", "lang", "zh") },
+		func() *adoc.Node { return adoc.ANS(adoc.XMLNS, "xml", "lang", "en") },
+	}
+	var arr [][]int
+	var rec func(cur []int, used int)
+	rec = func(cur []int, used int) {
+		arr = append(arr, append([]int{}, cur...))
+		for i := 0; i < 3; i++ {
+			if used&(1<<i) == 0 {
+				rec(append(cur, i), used|1<<i)
+			}
+		}
+	}
+	rec(nil, 0)
+	for _, order := range arr {
+		for anc := 0; anc < 2; anc++ {
+			d := adoc.NewDoc()
+			b := adoc.E("b", adoc.T("t"), adoc.E("c"))
+			for _, i := range order {
+				b.Add(mkAttr[i]())
+			}
+			a := adoc.E("a", b)
+			a.Declare("p", adoc.URI_U)
+			if anc == 1 {
+				a.Add(adoc.A("lang", "en"))
+				a.Add(adoc.ANS(adoc.XMLNS, "xml", "lang", "de"))
+			}
+			d.Root.Add(a)
+			docs = append(docs, d.Finish())
+		}
+	}
 	return docs
 }
 
@@ -142,7 +178,7 @@ func C12(c *run.Check) {
 	r.runGrid(len(j4), func(i int) *adoc.Doc { return adoc.Instantiate(j4[i].f, j4[i].deco) }, langs[:12], nil)
 	c.Sample(map[string]string{"doc": ld[7].String(), "context": "every node", "expr": "lang('en')"})
 	c.Sample(map[string]string{"doc": adoc.Instantiate(jobs[len(jobs)/2].f, adoc.D3).String(), "context": "every node", "expr": "name(preceding::node())"})
-	c.Rule = fmt.Sprintf("forests <=%d nodes x decorations D0-D4: %d name/local-name/namespace-uri/count expressions (default and explicit argument, empty sets, reverse-axis node-sets, wrong-typed arguments) from EVERY node of every kind; %d documents with xml:lang on self/ancestor/overridden/absent over %d tag values x %d lang() expressions (ranges differing in case, with region/script/private-use subtags, empty) from every node; compared with the reference; non-trivial = distinct (expression, context kind, result)", n, len(names), len(ld), len(c12Langs), len(langs))
+	c.Rule = fmt.Sprintf("forests <=%d nodes x decorations D0-D4: %d name/local-name/namespace-uri/count expressions (default and explicit argument, empty sets, reverse-axis node-sets, wrong-typed arguments) from EVERY node of every kind; %d documents with xml:lang on self/ancestor/overridden/absent (incl. every ordered arrangement of lang / p:lang / xml:lang attributes on one element) over %d tag values x %d lang() expressions (ranges differing in case, with region/script/private-use subtags, empty) from every node; compared with the reference; non-trivial = distinct (expression, context kind, result)", n, len(names), len(ld), len(c12Langs), len(langs))
 	c.Set("documents", len(jobs)+len(ld)+len(j4))
 	c.Assume("reference: refxp.NodeNames / refxp.Lang (exact or prefix + '-', ASCII case-insensitive)")
 }
